@@ -2,9 +2,9 @@
 CHT = 'std::__n4861::coroutine_handle<void>'
 DTYPES = {'CH': CHT, 'DQCH': 'std::deque<%s, std::allocator<%s > >' % (CHT, CHT)}
 DQB = [r'^std::deque<std::__n4861::coroutine_handle<void>']
-SCEN = ['start_value', 'start_throw', 'start_promise', 'start_claimed', 'detach', 'never_started', 'join', 'future_ctor', 'void']
+SCEN = ['start_value', 'start_throw', 'start_promise', 'start_claimed', 'detach', 'never_started', 'join', 'join_throw', 'join_void', 'join_void_throw', 'future_ctor', 'void', 'alloc_value', 'alloc_never_started']
 HEAVY = ['susp_resolved_later', 'susp_dropped', 'nested']   # symbolic execution of these scenarios does not terminate within the budget (DESIGN C04)
-GV = {'GV_%s' % g: g for g in ('g_body_runs', 'g_guard_ctor', 'g_guard_dtor', 'g_seen_value', 'g_seen_exc', 'g_seen_canceled')}
+GV = {'GV_%s' % g: g for g in ('g_body_runs', 'g_guard_ctor', 'g_guard_dtor', 'g_seen_value', 'g_seen_exc', 'g_seen_canceled', 'g_acc_allocs', 'g_acc_deallocs', 'g_acc_alloc_sz', 'g_acc_dealloc_sz', 'g_acc_ptr', 'g_acc_dealloc_ptr')}
 GV['GV_qinst'] = '_ZN5cocls10coro_queue8instanceE'
 def drive(s):
     return dict(name='drive_' + s, driver='c04_async.cpp', roots=['^drive_%s$' % s], names={}, types=DTYPES, globals=GV, boundary=DQB, lib=['rt_core.c', 'rt_atomic_seq.c', 'model_dq_ring.c'],
